@@ -21,6 +21,7 @@ import (
 	"errors"
 	"fmt"
 	"reflect"
+	"sort"
 
 	"github.com/cloudwego/eino/components/document"
 	"github.com/cloudwego/eino/components/embedding"
@@ -742,7 +743,16 @@ func (g *graph) compile(ctx context.Context, opt *graphCompileOptions) (*composa
 
 	key2SubGraphs := g.beforeChildGraphsCompile(opt)
 	chanSubscribeTo := make(map[string]*chanCall)
-	for name, node := range g.nodes {
+	// the nodes are compiled in the order of their keys, not in map order: compiling a child graph
+	// freezes it, so when one child fails, which of the others have already been compiled (and
+	// which child's error is reported) must be the same on every attempt
+	names := make([]string, 0, len(g.nodes))
+	for name := range g.nodes {
+		names = append(names, name)
+	}
+	sort.Strings(names)
+	for _, name := range names {
+		node := g.nodes[name]
 		node.beforeChildGraphCompile(name, key2SubGraphs)
 
 		r, err := node.compileIfNeeded(ctx)
